@@ -6,6 +6,9 @@
 //! may reorder / drop: the lifecycle stage buffers, merges and flushes) are exported twice, by the binary and by the same
 //! stages run in this process; the export must re-read to exactly the input messages in input order, frame by frame
 //! byte-identical, and the export of the export must be identical (model: Dlt/WritePipeline.v).
+//! Family 4/5: the state of the `-o` path before the command; the library's export writer.  Family 6 (export_opts): the export
+//! under the options of `adlt convert` that configure plugins / processing but do not select messages (--file_transfer..., the
+//! decoder paths, --sort, --debug_verify_*, -x/-a/-s), alone and combined, on inputs with file transfers and decoder traffic.
 use adlt::dlt::{parse_dlt_with_storage_header, DltChar4, DltExtendedHeader, DltMessage, DltStandardHeader};
 use adlt::lifecycle::{LifecycleId, LifecycleItem};
 use adlt::utils::DltMessageIterator;
@@ -1598,6 +1601,976 @@ fn record_export_plugin(sink: &mut Sink, pre: Prior, specs: Vec<MSpec>, extra: &
         obs, verdict, classes: vec![], tags, nontrivial });
 }
 
+// ------------------------------------------------------------------ family 6: export under the non-selecting options of the CLI
+// `adlt convert` has options that select messages (-f, --eac, --lcs, -b, -e: property C14), one that rewrites ids on purpose
+// (--anon: C19) and options that configure plugins or processing: --file_transfer=<glob> (+ --file_transfer_path / _apid /
+// _ctid), --nonverbose_path, --someip_path, --rewrite_path, --can_path, --muniic_path, --sort, --debug_verify_sort,
+// --debug_verify_lcs, the output styles -x / -a / -s.  None of the latter may remove a message from the file written with -o.
+/// one message of an input file, field by field (mcnt = position mod 256 is set when the file is put together)
+#[derive(Clone, Debug)]
+struct XMsg {
+    rt: u64,
+    ecu: [u8; 4],
+    ts: u32,
+    htyp: u8,
+    mcnt: u8,
+    ext: Option<(u8, u8, [u8; 4], [u8; 4])>,
+    payload: Vec<u8>,
+    /// what the generator meant it to be (statistics only)
+    tag: &'static str,
+}
+impl XMsg {
+    fn build(&self, idx: u32) -> DltMessage {
+        DltMessage {
+            index: idx,
+            reception_time_us: self.rt,
+            ecu: DltChar4::from_buf(&self.ecu),
+            timestamp_dms: self.ts,
+            standard_header: DltStandardHeader { htyp: self.htyp, mcnt: self.mcnt, len: 0 },
+            extended_header: self.ext.map(|e| DltExtendedHeader { verb_mstp_mtin: e.0, noar: e.1, apid: DltChar4::from_buf(&e.2), ctid: DltChar4::from_buf(&e.3) }),
+            payload: self.payload.clone(),
+            payload_text: None,
+            lifecycle: 0,
+        }
+    }
+    fn coq(&self) -> String {
+        let c4 = |c: &[u8; 4]| format!("({}, {}, {}, {})", c[0], c[1], c[2], c[3]);
+        let ext = match &self.ext {
+            None => "None".to_string(),
+            Some(e) => format!("(Some ({}, {}, {}, {}))", e.0, e.1, c4(&e.2), c4(&e.3)),
+        };
+        format!("({}, {}, {}, {}, {}, {}, {})", self.rt, c4(&self.ecu), self.ts, self.htyp, self.mcnt, ext, cnums(&self.payload))
+    }
+    fn json(&self) -> Value {
+        json!({"rt": self.rt, "ecu": self.ecu, "ts": self.ts, "htyp": self.htyp, "mcnt": self.mcnt, "ext": self.ext.map(|e| json!([e.0, e.1, e.2, e.3])), "payload": self.payload})
+    }
+    fn from_json(v: &Value) -> XMsg {
+        let a4 = |x: &Value| -> [u8; 4] {
+            let v: Vec<u8> = serde_json::from_value(x.clone()).unwrap();
+            [v[0], v[1], v[2], v[3]]
+        };
+        XMsg {
+            rt: v["rt"].as_u64().unwrap(),
+            ecu: a4(&v["ecu"]),
+            ts: v["ts"].as_u64().unwrap() as u32,
+            htyp: v["htyp"].as_u64().unwrap() as u8,
+            mcnt: v["mcnt"].as_u64().unwrap() as u8,
+            ext: if v["ext"].is_null() { None } else { Some((v["ext"][0].as_u64().unwrap() as u8, v["ext"][1].as_u64().unwrap() as u8, a4(&v["ext"][2]), a4(&v["ext"][3]))) },
+            payload: serde_json::from_value(v["payload"].clone()).unwrap(),
+            tag: "replay",
+        }
+    }
+}
+
+/// an option of `adlt convert` that does not select messages
+#[derive(Clone, Debug, PartialEq)]
+enum Opt {
+    /// --file_transfer=<glob>
+    Ft(String),
+    /// --file_transfer_path: 0 = a directory that does not exist yet (two levels), 1 = the directory of the output files,
+    /// 2 = the working directory of the process (exists)
+    FtPath(u8),
+    FtApid(String),
+    FtCtid(String),
+    NonVerbose,
+    SomeIp,
+    Rewrite,
+    Can,
+    Muniic,
+    Sort,
+    DebugSort,
+    DebugLcs,
+    Hex,
+    Ascii,
+    Headers,
+}
+impl Opt {
+    fn code(&self) -> u64 {
+        match self {
+            Opt::Ft(_) => 1,
+            Opt::FtPath(_) => 2,
+            Opt::FtApid(_) => 3,
+            Opt::FtCtid(_) => 4,
+            Opt::NonVerbose => 5,
+            Opt::SomeIp => 6,
+            Opt::Rewrite => 7,
+            Opt::Can => 8,
+            Opt::Muniic => 9,
+            Opt::Sort => 10,
+            Opt::DebugSort => 11,
+            Opt::DebugLcs => 12,
+            Opt::Hex => 13,
+            Opt::Ascii => 14,
+            Opt::Headers => 15,
+        }
+    }
+    fn name(&self) -> &'static str {
+        ["", "file_transfer", "file_transfer_path", "file_transfer_apid", "file_transfer_ctid", "nonverbose_path", "someip_path", "rewrite_path", "can_path", "muniic_path", "sort",
+            "debug_verify_sort", "debug_verify_lcs", "hex", "ascii", "headers"][self.code() as usize]
+    }
+    fn json(&self) -> Value {
+        match self {
+            Opt::Ft(s) | Opt::FtApid(s) | Opt::FtCtid(s) => json!([self.code(), s]),
+            Opt::FtPath(k) => json!([2, k]),
+            _ => json!([self.code()]),
+        }
+    }
+    fn from_json(v: &Value) -> Opt {
+        let s = || v[1].as_str().unwrap().to_string();
+        match v[0].as_u64().unwrap() {
+            1 => Opt::Ft(s()),
+            2 => Opt::FtPath(v[1].as_u64().unwrap() as u8),
+            3 => Opt::FtApid(s()),
+            4 => Opt::FtCtid(s()),
+            5 => Opt::NonVerbose,
+            6 => Opt::SomeIp,
+            7 => Opt::Rewrite,
+            8 => Opt::Can,
+            9 => Opt::Muniic,
+            10 => Opt::Sort,
+            11 => Opt::DebugSort,
+            12 => Opt::DebugLcs,
+            13 => Opt::Hex,
+            14 => Opt::Ascii,
+            15 => Opt::Headers,
+            x => panic!("unknown option code {}", x),
+        }
+    }
+    /// the command line arguments; `dir` = directory of in.dlt / a.dlt / b.dlt, the process runs in dir/cwd
+    fn args(&self, dir: &std::path::Path) -> Vec<std::ffi::OsString> {
+        let repo = std::env::var("VERIF_REPO").unwrap_or_else(|_| "/repo".to_string());
+        let tests = format!("{}/tests", repo);
+        let s = |x: &str| std::ffi::OsString::from(x);
+        match self {
+            Opt::Ft(g) => vec![s(&format!("--file_transfer={}", g))],
+            Opt::FtPath(k) => vec![s("--file_transfer_path"), match k { 0 => dir.join("x").join("y").into_os_string(), 1 => dir.as_os_str().to_owned(), _ => dir.join("cwd").into_os_string() }],
+            Opt::FtApid(a) => vec![s("--file_transfer_apid"), s(a)],
+            Opt::FtCtid(c) => vec![s("--file_transfer_ctid"), s(c)],
+            Opt::NonVerbose => vec![s("--nonverbose_path"), s(&tests)],
+            Opt::SomeIp => vec![s("--someip_path"), s(&tests)],
+            Opt::Rewrite => vec![s("--rewrite_path"), s(&format!("{}/rewrite.cfg", tests))],
+            Opt::Can => vec![s("--can_path"), s(&tests)],
+            Opt::Muniic => vec![s("--muniic_path"), s(&format!("{}/muniic", tests))],
+            Opt::Sort => vec![s("--sort")],
+            Opt::DebugSort => vec![s("--debug_verify_sort")],
+            Opt::DebugLcs => vec![s("--debug_verify_lcs")],
+            Opt::Hex => vec![s("-x")],
+            Opt::Ascii => vec![s("-a")],
+            Opt::Headers => vec![s("-s")],
+        }
+    }
+}
+
+fn pad4(s: &str) -> [u8; 4] {
+    let mut c = [0u8; 4];
+    for (i, b) in s.bytes().take(4).enumerate() {
+        c[i] = b;
+    }
+    c
+}
+
+// ---- verbose arguments
+fn xa_ti(p: &mut Vec<u8>, big: bool, ti: u32) {
+    p.extend_from_slice(&if big { ti.to_be_bytes() } else { ti.to_le_bytes() });
+}
+fn xa_var(p: &mut Vec<u8>, big: bool, ti: u32, d: &[u8]) {
+    xa_ti(p, big, ti);
+    let l = d.len() as u16;
+    p.extend_from_slice(&if big { l.to_be_bytes() } else { l.to_le_bytes() });
+    p.extend_from_slice(d);
+}
+fn xa_str(p: &mut Vec<u8>, big: bool, s: &str) {
+    let mut d = s.as_bytes().to_vec();
+    d.push(0);
+    xa_var(p, big, 0x200, &d);
+}
+fn xa_raw(p: &mut Vec<u8>, big: bool, d: &[u8]) {
+    xa_var(p, big, 0x400, d);
+}
+fn xa_u32(p: &mut Vec<u8>, big: bool, v: u32) {
+    xa_ti(p, big, 0x43);
+    p.extend_from_slice(&if big { v.to_be_bytes() } else { v.to_le_bytes() });
+}
+fn xa_u16(p: &mut Vec<u8>, big: bool, v: u16) {
+    xa_ti(p, big, 0x42);
+    p.extend_from_slice(&if big { v.to_be_bytes() } else { v.to_le_bytes() });
+}
+fn xa_u8(p: &mut Vec<u8>, big: bool, v: u8) {
+    xa_ti(p, big, 0x41);
+    p.push(v);
+}
+fn xrand(rng: &mut Rng, n: u64) -> Vec<u8> {
+    (0..n).map(|_| rng.below(256) as u8).collect()
+}
+/// a message of one ECU without times (assigned when the file is put together)
+fn xproto(ecu: &[u8; 4], big: bool, ext: Option<(u8, u8, [u8; 4], [u8; 4])>, payload: Vec<u8>, tag: &'static str) -> XMsg {
+    XMsg { rt: 0, ecu: *ecu, ts: 0, htyp: 0x30 | if ext.is_some() { 1 } else { 0 } | if big { 2 } else { 0 }, mcnt: 0, ext, payload, tag }
+}
+
+/// a file transfer of one serial: FLST (8 arguments), FLDA packages (5 arguments, first and last the string "FLDA"), FLFI --
+/// complete, or damaged (a package lost / duplicated, announcement or end missing, data only)
+fn x_ft_session(rng: &mut Rng, ecu: &[u8; 4], ids: ([u8; 4], [u8; 4]), name: &str) -> Vec<XMsg> {
+    let big = rng.chance(1, 6);
+    let ext = |noar: u8| Some((0x41u8, noar, ids.0, ids.1));
+    let serial = rng.below(100_000) as u32;
+    let n = rng.range(1, 4) as u32;
+    let bs = rng.range(1, 6) as u16;
+    let mut v = vec![];
+    let mut p = vec![];
+    xa_str(&mut p, big, "FLST");
+    xa_u32(&mut p, big, serial);
+    xa_str(&mut p, big, name);
+    xa_u32(&mut p, big, n * bs as u32);
+    xa_str(&mut p, big, "2026");
+    xa_u32(&mut p, big, n);
+    xa_u16(&mut p, big, bs);
+    xa_str(&mut p, big, "FLST");
+    v.push(xproto(ecu, big, ext(8), p, "ft_flst"));
+    for k in 1..=n {
+        let mut p = vec![];
+        xa_str(&mut p, big, "FLDA");
+        xa_u32(&mut p, big, serial);
+        xa_u32(&mut p, big, k);
+        let d = xrand(rng, bs as u64);
+        xa_raw(&mut p, big, &d);
+        xa_str(&mut p, big, "FLDA");
+        v.push(xproto(ecu, big, ext(5), p, "ft_flda"));
+    }
+    let mut p = vec![];
+    xa_str(&mut p, big, "FLFI");
+    xa_u32(&mut p, big, serial);
+    xa_str(&mut p, big, "FLFI");
+    v.push(xproto(ecu, big, ext(3), p, "ft_flfi"));
+    match rng.below(9) {
+        0 => {
+            v.remove(0); // announcement missing
+        }
+        1 => {
+            if v.len() > 2 {
+                let k = 1 + rng.below(v.len() as u64 - 2) as usize;
+                v.remove(k); // a package lost
+            }
+        }
+        2 => {
+            let k = 1 + rng.below(v.len() as u64 - 2) as usize;
+            let d = v[k].clone();
+            v.insert(k, d); // a package twice
+        }
+        3 => {
+            v.pop(); // end missing
+        }
+        4 => {
+            v.remove(0);
+            v.pop(); // data packages only
+        }
+        _ => {}
+    }
+    v
+}
+
+/// messages next to what the file-transfer plugin matches on: 5 arguments starting with "FLDA" but not ending with it,
+/// 4 or 6 arguments, not log-info, non-verbose, "FLDA" as UTF-8 string
+fn x_ft_lookalike(rng: &mut Rng, ecu: &[u8; 4], ids: ([u8; 4], [u8; 4])) -> XMsg {
+    let big = rng.chance(1, 6);
+    let mut p = vec![];
+    let kind = rng.below(6);
+    if kind == 5 {
+        xa_var(&mut p, big, 0x200 | 0x8000, b"FLDA\0");
+    } else {
+        xa_str(&mut p, big, "FLDA");
+    }
+    xa_u32(&mut p, big, rng.below(50) as u32);
+    xa_u32(&mut p, big, 1);
+    let d = xrand(rng, 3);
+    xa_raw(&mut p, big, &d);
+    xa_str(&mut p, big, if kind == 0 { "FLDX" } else { "FLDA" });
+    let (vmm, noar) = match kind {
+        1 => (0x41u8, 4u8),
+        2 => (0x41, 6),
+        3 => (0x31, 5),               // log warn
+        4 => (0x40, 5),               // not verbose
+        _ => (0x41, 5),
+    };
+    xproto(ecu, big, Some((vmm, noar, ids.0, ids.1)), p, "ft_lookalike")
+}
+
+const NV_IDS: [u32; 5] = [805312382, 805834673, 800000000, 805834674, 1];
+/// traffic the other plugins act on (FIBEX / json files of /repo/tests) and ordinary messages
+fn x_traffic(rng: &mut Rng, ecu: &[u8; 4]) -> XMsg {
+    let big = rng.chance(1, 5);
+    let mut p = vec![];
+    match rng.below(12) {
+        0 => {
+            let n = rng.size(10);
+            xproto(ecu, big, None, xrand(rng, n), "plain")
+        }
+        1 | 2 | 3 => {
+            // non-verbose: message id (known to tests/non_verbose*.xml for ECU Ecu1, or not) + data; without an extended header
+            // the non-verbose plugin fills one in from the FIBEX
+            let id = *rng.pick(&NV_IDS);
+            p.extend_from_slice(&if big { id.to_be_bytes() } else { id.to_le_bytes() });
+            let n = *rng.pick(&[0u64, 1, 2, 4, 5, 8, 12, 16, 24]);
+            p.extend(xrand(rng, n));
+            let ext = if rng.chance(3, 5) { None } else { Some((0x40u8, rng.below(2) as u8, pad4(*rng.pick(&["HLD", "APP1", "SYS"])), pad4(*rng.pick(&["MAIN", "ERR", "CTX1"])))) };
+            xproto(ecu, big, ext, p, if ext.is_none() { "nonverbose_no_ext" } else { "nonverbose_ext" })
+        }
+        4 => {
+            for _ in 0..rng.range(1, 3) {
+                match rng.below(3) {
+                    0 => xa_str(&mut p, big, *rng.pick(&["hello", "", "FLDA", "a b 12.5 c"])),
+                    1 => xa_u32(&mut p, big, rng.next() as u32),
+                    _ => {
+                        let d = xrand(rng, 3);
+                        xa_raw(&mut p, big, &d)
+                    }
+                }
+            }
+            let noar = rng.range(1, 3) as u8;
+            xproto(ecu, big, Some((0x41, noar, pad4(*rng.pick(&["APP1", "SYS", "FTA"])), pad4(*rng.pick(&["CTX1", "FILE", "FTC"])))), p, "verbose_log")
+        }
+        5 => {
+            // SOME/IP: NwTrace Ipc, ctid TC: 12 byte header + SOME/IP message of the service tests/fibex1.xml describes
+            let mut h = xrand(rng, 12);
+            h[8..12].copy_from_slice(&(rng.below(3) as u32).to_be_bytes());
+            xa_raw(&mut p, big, &h);
+            let mut s = vec![];
+            s.extend_from_slice(&(if rng.chance(3, 4) { 64098u16 } else { rng.next() as u16 }).to_be_bytes());
+            s.extend_from_slice(&(if rng.chance(3, 4) { 1000u16 } else { rng.next() as u16 }).to_be_bytes());
+            let body = xrand(rng, rng.clone().below(5));
+            s.extend_from_slice(&((8 + body.len()) as u32).to_be_bytes());
+            s.extend_from_slice(&(rng.next() as u32).to_be_bytes());
+            s.extend_from_slice(&[1, 1, *rng.pick(&[0u8, 1, 2, 0x80]), 0]);
+            s.extend(body);
+            xa_raw(&mut p, big, &s);
+            xproto(ecu, big, Some((0x15, 2, pad4("APP1"), pad4("TC"))), p, "someip")
+        }
+        6 => {
+            // CAN frame: NwTrace Can, apid CAN, ctid TC
+            xa_u32(&mut p, big, *rng.pick(&[1u32, 0x123, 0x7ff, 0x1234_5678]));
+            let n = rng.size(8);
+            let d = xrand(rng, n);
+            xa_raw(&mut p, big, &d);
+            xproto(ecu, big, Some((0x25, 2, pad4("CAN"), pad4("TC"))), p, "can")
+        }
+        7 => {
+            // Muniic MMSG (13 arguments)
+            xa_str(&mut p, big, "HmiP");
+            xa_u32(&mut p, big, 5711);
+            xa_u32(&mut p, big, 83029);
+            xa_u32(&mut p, big, 7);
+            xa_u32(&mut p, big, 0);
+            xa_str(&mut p, big, "InitialData...");
+            xa_str(&mut p, big, "[Hmi]");
+            xa_u32(&mut p, big, 1228779599);
+            xa_u32(&mut p, big, 3478824001);
+            xa_str(&mut p, big, "C/LC:");
+            xa_u8(&mut p, big, 2);
+            xa_u8(&mut p, big, 0);
+            let d = xrand(rng, 2);
+            xa_raw(&mut p, big, &d);
+            xproto(ecu, big, Some((0x41, 13, pad4("MUN"), pad4("MMSG"))), p, "muniic")
+        }
+        8 | 9 => {
+            // rewrite target (tests/rewrite.cfg: apid SYS, ctid JOUR, a time stamp in the text)
+            xa_str(&mut p, big, *rng.pick(&["2024/01/01 12:00:00.000000 123.456789 kernel: text", "a b 0.5 x", "a b 99999.9 big", "single", "a b 1e5 nomatch"]));
+            let ids = if rng.chance(4, 5) { ("SYS", "JOUR") } else { ("SYS", "FILE") };
+            xproto(ecu, big, Some((0x41, 1, pad4(ids.0), pad4(ids.1))), p, "rewrite_target")
+        }
+        _ => {
+            // control message: request / response, get software version, set log level...
+            let response = rng.chance(2, 3);
+            let vmm = (3 << 1) | ((if response { 2u8 } else { 1 }) << 4);
+            let id: u32 = *rng.pick(&[19u32, 3, 0x13, 0xf01, 20]);
+            p.extend_from_slice(&if big { id.to_be_bytes() } else { id.to_le_bytes() });
+            if response {
+                p.push(0);
+                if id == 19 {
+                    p.extend_from_slice(&if big { 8u32.to_be_bytes() } else { 8u32.to_le_bytes() });
+                    p.extend_from_slice(b"SW 1.2.3");
+                }
+            }
+            xproto(ecu, big, Some((vmm, 1, pad4("APP1"), pad4("CTX1"))), p, "control")
+        }
+    }
+}
+
+/// SOME/IP segmented transfer: NWST (id, header, ?, number of chunks, chunk size), NWCH chunks, NWEN -- complete, a chunk lost, or
+/// without its start (the plugin keeps per-id state across these messages)
+fn x_someip_segments(rng: &mut Rng, ecu: &[u8; 4]) -> Vec<XMsg> {
+    let big = rng.chance(1, 6);
+    let id = *rng.pick(&[0u32, 1, 42, 0x0102_0304]);
+    let ext = |noar: u8| Some((0x15u8, noar, pad4("APP1"), pad4("TC")));
+    let nr = rng.range(1, 3) as u16;
+    let cs = *rng.pick(&[4u16, 8, 16]);
+    let total = nr as usize * cs as usize;
+    let mut data = vec![];
+    data.extend_from_slice(&64098u16.to_be_bytes());
+    data.extend_from_slice(&1000u16.to_be_bytes());
+    data.extend_from_slice(&(total.saturating_sub(8) as u32).to_be_bytes());
+    data.extend_from_slice(&(rng.next() as u32).to_be_bytes());
+    data.extend_from_slice(&[1, 1, 2, 0]);
+    data.resize(total, 0x33);
+    let mut v = vec![];
+    let mut p = vec![];
+    xa_str(&mut p, big, "NWST");
+    xa_raw(&mut p, big, &id.to_le_bytes());
+    let mut h = xrand(rng, 12);
+    h[8..12].copy_from_slice(&(rng.below(3) as u32).to_be_bytes());
+    xa_raw(&mut p, big, &h);
+    xa_raw(&mut p, big, &[0]);
+    xa_raw(&mut p, big, &nr.to_le_bytes());
+    xa_raw(&mut p, big, &cs.to_le_bytes());
+    v.push(xproto(ecu, big, ext(6), p, "someip_seg"));
+    for (k, c) in data.chunks(cs as usize).enumerate() {
+        let mut p = vec![];
+        xa_str(&mut p, big, "NWCH");
+        xa_raw(&mut p, big, &id.to_le_bytes());
+        xa_raw(&mut p, big, &(k as u16).to_le_bytes());
+        xa_raw(&mut p, big, c);
+        v.push(xproto(ecu, big, ext(4), p, "someip_seg"));
+    }
+    let mut p = vec![];
+    xa_str(&mut p, big, "NWEN");
+    xa_raw(&mut p, big, &id.to_le_bytes());
+    v.push(xproto(ecu, big, ext(2), p, "someip_seg"));
+    match rng.below(5) {
+        0 => {
+            v.remove(0);
+        }
+        1 => {
+            if v.len() > 2 {
+                v.remove(1);
+            }
+        }
+        _ => {}
+    }
+    v
+}
+
+/// CAN: frames before and after the channel announcement (GET_LOG_INFO response for apid CAN / ctid TC) of the ECU
+fn x_can_session(rng: &mut Rng, ecu: &[u8; 4]) -> Vec<XMsg> {
+    let big = rng.chance(1, 6);
+    let mut frame = |rng: &mut Rng| {
+        let mut p = vec![];
+        xa_u32(&mut p, big, *rng.pick(&[1u32, 0x123, 0x7ff]));
+        let n = rng.size(8);
+        let d = xrand(rng, n);
+        xa_raw(&mut p, big, &d);
+        xproto(ecu, big, Some((0x25, 2, pad4("CAN"), pad4("TC"))), p, "can")
+    };
+    let mut p = vec![];
+    p.extend_from_slice(&if big { 3u32.to_be_bytes() } else { 3u32.to_le_bytes() });
+    p.push(7);
+    let put16 = |p: &mut Vec<u8>, v: u16| p.extend_from_slice(&if big { v.to_be_bytes() } else { v.to_le_bytes() });
+    put16(&mut p, 1);
+    p.extend_from_slice(b"CAN\0");
+    put16(&mut p, 0);
+    let desc = b"IuK_CAN 431";
+    put16(&mut p, desc.len() as u16);
+    p.extend_from_slice(desc);
+    let announce = xproto(ecu, big, Some((0x26, 0, pad4("CAN"), pad4("TC"))), p, "can_announce");
+    let mut v = vec![];
+    if rng.chance(1, 2) {
+        v.push(frame(rng));
+    }
+    v.push(announce);
+    for _ in 0..rng.range(1, 2) {
+        v.push(frame(rng));
+    }
+    v
+}
+
+/// Muniic configuration message (model hash) followed by a message decoded with it
+fn x_muniic_cfg(rng: &mut Rng, ecu: &[u8; 4]) -> XMsg {
+    let big = rng.chance(1, 6);
+    let mut p = vec![];
+    xa_str(&mut p, big, &format!("Version: 20.48, git: 123, model hash: {}", *rng.pick(&["2874425776", "2944352002", "5"])));
+    xproto(ecu, big, Some((0x41, 1, pad4("MUN"), pad4("MDLT"))), p, "muniic_cfg")
+}
+
+/// random merge that keeps the order inside each sequence
+fn x_interleave(rng: &mut Rng, mut seqs: Vec<Vec<XMsg>>) -> Vec<XMsg> {
+    for s in seqs.iter_mut() {
+        s.reverse();
+    }
+    let mut out = vec![];
+    loop {
+        seqs.retain(|s| !s.is_empty());
+        if seqs.is_empty() {
+            return out;
+        }
+        let k = rng.below(seqs.len() as u64) as usize;
+        out.push(seqs[k].pop().unwrap());
+    }
+}
+
+/// an input file for the option set: 1..3 file transfers (ids: those the options restrict the plugin to, and others), the
+/// look-alikes, traffic for the decoders, of 1..2 ECUs; reception times ascending, timestamps of an ECU = time since its boot
+fn gen_opts_input(rng: &mut Rng, opts: &[Opt]) -> Vec<XMsg> {
+    let apid = opts.iter().find_map(|o| if let Opt::FtApid(a) = o { Some(pad4(a)) } else { None });
+    let ctid = opts.iter().find_map(|o| if let Opt::FtCtid(c) = o { Some(pad4(c)) } else { None });
+    let ecus: Vec<[u8; 4]> = if rng.chance(2, 3) { vec![*b"Ecu1"] } else { vec![*b"Ecu1", *b"ECU2"] };
+    let names = ["f.bin", "log.txt", "sub/dir/core.bin", "a.dlt", "b.dlt", "in.dlt", "../up.bin", "x", ".bin"];
+    let mut seqs: Vec<Vec<XMsg>> = vec![];
+    for s in 0..rng.range(1, 3) {
+        // the first transfer carries the ids the plugin is restricted to (if any), later ones sometimes other ids
+        let ids = if s == 0 || rng.chance(1, 2) {
+            (apid.unwrap_or(pad4(*rng.pick(&["FTA", "SYS", "APP1"]))), ctid.unwrap_or(pad4(*rng.pick(&["FTC", "FILE", "CTX1"]))))
+        } else {
+            (pad4(*rng.pick(&["FTA", "SYS", "OTHR"])), pad4(*rng.pick(&["FTC", "FILE", "OTHR"])))
+        };
+        let ecu = *rng.pick(&ecus);
+        let name = *rng.pick(&names);
+        let mut t = x_ft_session(rng, &ecu, ids, name);
+        if rng.chance(1, 3) {
+            let k = rng.below(t.len() as u64 + 1) as usize;
+            t.insert(k, x_ft_lookalike(rng, &ecu, ids));
+        }
+        seqs.push(t);
+    }
+    // stateful paths of the decoders: a segmented SOME/IP transfer, a CAN channel announcement, a Muniic configuration
+    // (always a candidate; more often when the respective plugin is configured)
+    let want = |rng: &mut Rng, o: &Opt| rng.chance(if opts.contains(o) { 5 } else { 1 }, 6);
+    if want(rng, &Opt::SomeIp) {
+        let ecu = *rng.pick(&ecus);
+        seqs.push(x_someip_segments(rng, &ecu));
+    }
+    if want(rng, &Opt::Can) {
+        let ecu = *rng.pick(&ecus);
+        seqs.push(x_can_session(rng, &ecu));
+    }
+    let mut traffic = vec![];
+    if want(rng, &Opt::Muniic) {
+        let ecu = *rng.pick(&ecus);
+        traffic.push(x_muniic_cfg(rng, &ecu));
+    }
+    for _ in 0..rng.range(2, 8) {
+        let ecu = *rng.pick(&ecus);
+        traffic.push(x_traffic(rng, &ecu));
+    }
+    if opts.contains(&Opt::NonVerbose) {
+        // messages the FIBEX of /repo/tests describes (ECU Ecu1), long enough, without extended header: the plugin completes it
+        for _ in 0..rng.range(1, 3) {
+            let big = rng.chance(1, 5);
+            let id = *rng.pick(&NV_IDS[..2]);
+            let mut p = if big { id.to_be_bytes().to_vec() } else { id.to_le_bytes().to_vec() };
+            let n = rng.range(11, 24);
+            p.extend(xrand(rng, n));
+            traffic.push(xproto(b"Ecu1", big, None, p, "nonverbose_no_ext"));
+        }
+    }
+    seqs.push(traffic);
+    let mut ms = x_interleave(rng, seqs);
+    let t0 = lcgen::RHO + rng.below(1_000_000) * 1_000_000 + rng.below(1_000_000);
+    let boots: Vec<u64> = ecus.iter().map(|_| t0 - rng.range(1, 30) * 1_000_000).collect();
+    let mut now = t0;
+    for (i, m) in ms.iter_mut().enumerate() {
+        now += match rng.below(6) { 0 => rng.range(1_000_000, 3_000_000), 1 => 0, _ => rng.range(100, 400_000) };
+        m.rt = now;
+        let b = boots[ecus.iter().position(|e| *e == m.ecu).unwrap()];
+        m.ts = ((now - b) / 100) as u32 - if rng.chance(1, 8) { rng.below(2000) as u32 } else { 0 };
+        m.mcnt = (i & 0xff) as u8;
+        if rng.chance(1, 20) {
+            m.htyp &= !0x10; // no timestamp
+            m.ts = 0;
+        }
+    }
+    ms
+}
+
+struct OptsRun {
+    a: Vec<u8>,
+    b: Vec<u8>,
+    /// the plain export of a.dlt (a sample)
+    c: Option<Vec<u8>>,
+    in_after: Vec<u8>,
+    /// files the commands left besides the outputs (auto-saved transfers): relative path, size
+    extra: Vec<(String, usize)>,
+}
+/// T/in.dlt; `adlt convert <opts> -o T/a.dlt T/in.dlt` and `adlt convert <opts'> -o T/b.dlt T/a.dlt` (opts' = opts without
+/// --sort) run in T/cwd; optionally `adlt convert -o T/c.dlt T/a.dlt`
+fn convert_opts(opts: &[Opt], data: &[u8], with_c: bool) -> Option<Result<OptsRun, String>> {
+    let bin = std::env::var("VERIF_ADLT_BIN").ok()?;
+    if !std::path::Path::new(&bin).exists() {
+        return None;
+    }
+    let dir = tempfile::tempdir().ok()?;
+    let p = |n: &str| dir.path().join(n);
+    std::fs::write(p("in.dlt"), data).ok()?;
+    std::fs::create_dir(p("cwd")).ok()?;
+    if let Some(c) = derived_prior(data, 4) {
+        std::fs::write(p("a.dlt"), c).ok()?;
+    }
+    if let Some(c) = derived_prior(data, 5) {
+        std::fs::write(p("b.dlt"), c).ok()?;
+    }
+    let run = |opts: &[&Opt], out: &str, inp: &str| -> Result<Vec<u8>, String> {
+        let mut cmd = std::process::Command::new(&bin);
+        cmd.arg("convert");
+        for o in opts {
+            cmd.args(o.args(dir.path()));
+        }
+        let o = cmd.arg("-o").arg(p(out)).arg(p(inp)).current_dir(p("cwd")).output().map_err(|e| e.to_string())?;
+        if !o.status.success() {
+            return Err(format!("adlt convert {:?} exit {:?}: {}", opts, o.status.code(), String::from_utf8_lossy(&o.stderr).chars().take(400).collect::<String>()));
+        }
+        std::fs::read(p(out)).map_err(|e| e.to_string())
+    };
+    Some((|| {
+        let all: Vec<&Opt> = opts.iter().collect();
+        let a = run(&all, "a.dlt", "in.dlt")?;
+        let unsorted: Vec<&Opt> = opts.iter().filter(|o| **o != Opt::Sort).collect();
+        let b = run(&unsorted, "b.dlt", "a.dlt")?;
+        let c = if with_c { Some(run(&[], "c.dlt", "a.dlt")?) } else { None };
+        let in_after = std::fs::read(p("in.dlt")).map_err(|e| e.to_string())?;
+        let mut extra = vec![];
+        let mut stack = vec![dir.path().to_path_buf()];
+        while let Some(d) = stack.pop() {
+            for e in std::fs::read_dir(&d).map_err(|e| e.to_string())?.flatten() {
+                let path = e.path();
+                if path.is_dir() {
+                    stack.push(path);
+                } else {
+                    let rel = path.strip_prefix(dir.path()).unwrap().to_string_lossy().to_string();
+                    if !["in.dlt", "a.dlt", "b.dlt", "c.dlt"].contains(&rel.as_str()) {
+                        extra.push((rel, e.metadata().map(|m| m.len() as usize).unwrap_or(0)));
+                    }
+                }
+            }
+        }
+        extra.sort();
+        Ok(OptsRun { a, b, c, in_after, extra })
+    })())
+}
+
+struct OptsCase {
+    opts: Vec<Opt>,
+    msgs: Vec<XMsg>,
+    tags: Vec<String>,
+}
+fn opts_input(msgs: &[XMsg]) -> Result<Vec<u8>, String> {
+    let built: Vec<DltMessage> = msgs.iter().enumerate().map(|(i, m)| m.build(i as u32)).collect();
+    write_all(&built)
+}
+
+/// the frames of `a` put back: the completions the decoders may make undone, a sorted export back in input order -- when `a`
+/// holds exactly the input's messages; else `a` as it is
+fn normalize_export(inp: &[u8], r0: &Read, a: &[u8], allow_ext: bool, allow_ts: bool, sorted: bool, tags: &mut Vec<String>) -> Vec<u8> {
+    let ra = match read_all(0, a) {
+        Ok(r) => r,
+        Err(_) => return a.to_vec(),
+    };
+    if ra.skipped != 0 || ra.rest != 0 || ra.msgs.len() != r0.msgs.len() {
+        return a.to_vec();
+    }
+    let sys = DltChar4::from_buf(b"SYS\0");
+    let jour = DltChar4::from_buf(b"JOUR");
+    // the exported message `m` with the completions undone that are allowed for the input message `m0`; (ext undone, ts undone)
+    let undo = |m0: &DltMessage, m: &DltMessage| -> (DltMessage, bool, bool) {
+        let mut m = m.clone();
+        let (mut e, mut t) = (false, false);
+        if allow_ext && m0.extended_header.is_none() && m.extended_header.is_some() {
+            m.extended_header = None;
+            e = true;
+        }
+        if allow_ts && m.timestamp_dms != m0.timestamp_dms && m0.apid() == Some(&sys) && m0.ctid() == Some(&jour) {
+            m.timestamp_dms = m0.timestamp_dms;
+            t = true;
+        }
+        (m, e, t)
+    };
+    let frame = |m: &DltMessage| -> Vec<u8> {
+        let mut v = vec![];
+        let _ = m.to_write(&mut v);
+        v
+    };
+    let mut ms: Vec<Option<DltMessage>> = vec![None; r0.msgs.len()];
+    let (mut any_e, mut any_t) = (false, false);
+    if sorted {
+        // each exported message to the first unused input message it is a completion of
+        let want = frames_of(inp, r0);
+        let mut permuted = false;
+        for (i, g) in ra.msgs.iter().enumerate() {
+            let hit = (0..want.len()).filter(|k| ms[*k].is_none()).find_map(|k| {
+                let (m, e, t) = undo(&r0.msgs[k], g);
+                if frame(&m) == want[k] { Some((k, m, e, t)) } else { None }
+            });
+            match hit {
+                Some((k, m, e, t)) => {
+                    ms[k] = Some(m);
+                    any_e |= e;
+                    any_t |= t;
+                    permuted |= k != i;
+                }
+                None => return a.to_vec(),
+            }
+        }
+        if permuted {
+            tags.push("opts_sort_permuted".into());
+        }
+    } else {
+        for (k, (m0, g)) in r0.msgs.iter().zip(ra.msgs.iter()).enumerate() {
+            let (m, e, t) = undo(m0, g);
+            ms[k] = Some(m);
+            any_e |= e;
+            any_t |= t;
+        }
+    }
+    if any_e {
+        tags.push("opts_ext_header_completed".into());
+    }
+    if any_t {
+        tags.push("opts_timestamp_rewritten".into());
+    }
+    let ms: Vec<DltMessage> = ms.into_iter().map(|m| m.unwrap()).collect();
+    write_all(&ms).unwrap_or_else(|_| a.to_vec())
+}
+
+fn record_export_opts(sink: &mut Sink, c: OptsCase, run: Option<Option<Result<OptsRun, String>>>, k: usize) {
+    let fail = |c: String, d: String| Verdict::Fail { clause: c, detail: d };
+    let mut verdict = Verdict::Ok;
+    let mut tags = c.tags.clone();
+    tags.push("export_opts".into());
+    tags.push(format!("opts_n{}", c.opts.len().min(5)));
+    for o in &c.opts {
+        tags.push(format!("opt_{}", o.name()));
+    }
+    for t in c.msgs.iter().map(|m| m.tag).collect::<std::collections::BTreeSet<_>>() {
+        tags.push(format!("xmsg_{}", t));
+    }
+    let has = |code: u64| c.opts.iter().any(|o| o.code() == code);
+    let (allow_ext, allow_ts, sorted) = (has(5), has(7), has(10));
+    let what = format!("options {:?}", c.opts.iter().map(|o| o.json().to_string()).collect::<Vec<_>>());
+    let mut nontrivial = false;
+    let obs = match opts_input(&c.msgs) {
+        Err(e) => {
+            verdict = fail("write_ok".into(), e);
+            O::T(vec![O::L(7)])
+        }
+        Ok(inp) => match read_all(0, &inp) {
+            Err(e) => {
+                verdict = fail("input_readable".into(), e);
+                O::T(vec![O::L(15), o_file(&inp)])
+            }
+            Ok(r0) => {
+                if r0.msgs.len() != c.msgs.len() || r0.skipped != 0 || r0.rest != 0 {
+                    verdict = fail("input_is_the_messages_written".into(), format!("{} messages written, {} read, skipped {}", c.msgs.len(), r0.msgs.len(), r0.skipped));
+                }
+                let run = run.unwrap_or_else(|| convert_opts(&c.opts, &inp, k % 3 == 0));
+                match run {
+                    None => {
+                        tags.push("e2e_skipped_no_binary".into());
+                        O::T(vec![O::L(12)])
+                    }
+                    Some(Err(e)) => {
+                        if matches!(verdict, Verdict::Ok) {
+                            verdict = fail("convert_opts_runs".into(), e);
+                        }
+                        O::T(vec![O::L(15), o_file(&inp)])
+                    }
+                    Some(Ok(r)) => {
+                        let norm = normalize_export(&inp, &r0, &r.a, allow_ext, allow_ts, sorted, &mut tags);
+                        tags.sort();
+                        tags.dedup();
+                        if !r.extra.is_empty() {
+                            tags.push("opts_file_auto_saved".into());
+                        }
+                        nontrivial = c.opts.iter().any(|o| matches!(o, Opt::Ft(_))) && c.msgs.iter().any(|m| m.tag == "ft_flda");
+                        if matches!(verdict, Verdict::Ok) {
+                            // the export clause: exactly the input's messages, in order (under --sort: the same multiset), every
+                            // frame byte-identical once the completions a decoder is allowed to make are undone
+                            if let Err((cl, d)) = check_export(&inp, &r0, &norm, &norm) {
+                                let note = if (allow_ext || allow_ts) && norm == r.a { " (the export does not hold the input's messages one to one: frames compared as they are, completions not undone)" } else { "" };
+                                verdict = fail(format!("convert_opts_{}", cl), format!("{}{}; {}", d.chars().take(500).collect::<String>(), note, what));
+                            } else if !allow_ext && !allow_ts && !sorted && r.a != inp {
+                                verdict = fail("convert_opts_bytes_exact".into(), format!("the export differs from to_write of the input's messages ({} vs {} bytes); {}", r.a.len(), inp.len(), what));
+                            } else if r.b != r.a {
+                                verdict = fail("convert_opts_export_of_export_identical".into(), format!("{} vs {} bytes, first difference at {:?}; {}", r.a.len(), r.b.len(), r.a.iter().zip(r.b.iter()).position(|(x, y)| x != y), what));
+                            } else if r.c.as_ref().map_or(false, |c| *c != r.a) {
+                                verdict = fail("convert_opts_plain_export_of_export_identical".into(), format!("{} vs {} bytes; {}", r.a.len(), r.c.as_ref().unwrap().len(), what));
+                            } else if r.in_after != inp {
+                                verdict = fail("convert_opts_input_file_untouched".into(), format!("in.dlt has {} bytes after the commands, {} before; files left: {:?}; {}", r.in_after.len(), inp.len(), r.extra, what));
+                            }
+                        }
+                        let order = match read_all(0, &norm) {
+                            Ok(rn) => O::T(vec![O::T(rn.msgs.iter().map(|m| O::n(m.mcnt())).collect()), O::n(rn.rest as u64)]),
+                            Err(_) => O::L(1),
+                        };
+                        O::T(vec![O::L(14), o_file(&inp), o_file(&norm), order, O::b(r.a == r.b)])
+                    }
+                }
+            }
+        },
+    };
+    let c4 = |c: &[u8; 4]| format!("({}, {}, {}, {})", c[0], c[1], c[2], c[3]);
+    let ft = if has(1) {
+        let a = c.opts.iter().find_map(|o| if let Opt::FtApid(a) = o { Some(c4(&pad4(a))) } else { None });
+        let t = c.opts.iter().find_map(|o| if let Opt::FtCtid(a) = o { Some(c4(&pad4(a))) } else { None });
+        format!("(Some ({}, {}))", copt(a), copt(t))
+    } else {
+        "None".to_string()
+    };
+    let input_coq = format!("(CExportOpts {} {} {})", cnums(&c.opts.iter().map(|o| o.code()).collect::<Vec<_>>()), ft, clist(&c.msgs.iter().map(|m| m.coq()).collect::<Vec<_>>()));
+    let key = format!("{}|{}", what, input_coq);
+    let id = sink.next_id();
+    sink.push(Case {
+        id,
+        key,
+        input_coq,
+        input_json: json!({"kind": "export_opts", "opts": c.opts.iter().map(|o| o.json()).collect::<Vec<_>>(), "msgs": c.msgs.iter().map(|m| m.json()).collect::<Vec<_>>()}),
+        obs,
+        verdict,
+        classes: vec![],
+        tags,
+        nontrivial,
+    });
+}
+
+fn record_exports_opts(sink: &mut Sink, cases: Vec<OptsCase>) {
+    let next = std::sync::atomic::AtomicUsize::new(0);
+    let out: std::sync::Mutex<Vec<Option<Option<Result<OptsRun, String>>>>> = std::sync::Mutex::new(cases.iter().map(|_| None).collect());
+    let nthreads = std::thread::available_parallelism().map(|n| n.get()).unwrap_or(4).clamp(2, 8);
+    std::thread::scope(|sc| {
+        for _ in 0..nthreads {
+            sc.spawn(|| loop {
+                let k = next.fetch_add(1, std::sync::atomic::Ordering::SeqCst);
+                if k >= cases.len() {
+                    break;
+                }
+                let r = opts_input(&cases[k].msgs).ok().and_then(|inp| convert_opts(&cases[k].opts, &inp, k % 3 == 0));
+                out.lock().unwrap()[k] = Some(r);
+            });
+        }
+    });
+    let runs = out.into_inner().unwrap();
+    for (k, (c, r)) in cases.into_iter().zip(runs.into_iter()).enumerate() {
+        // (an input that cannot be written is reported by record_export_opts itself)
+        let r = if opts_input(&c.msgs).is_ok() { r } else { None };
+        record_export_opts(sink, c, r, k);
+    }
+}
+
+/// the atoms the option sets are made of: one option, or --file_transfer with one of its companions
+fn opt_atom(rng: &mut Rng, k: u64) -> Vec<Opt> {
+    let glob = |rng: &mut Rng| Opt::Ft(rng.pick(&["*.bin", "*", "*.txt", "nomatch*", "**/*.bin", "*.dlt", "?"]).to_string());
+    let apid = |rng: &mut Rng| Opt::FtApid(rng.pick(&["FTA", "SYS", "APP1", "F"]).to_string());
+    let ctid = |rng: &mut Rng| Opt::FtCtid(rng.pick(&["FTC", "FILE", "CTX1", "FT"]).to_string());
+    match k {
+        0 => vec![glob(rng)],
+        1 => vec![glob(rng), Opt::FtPath(rng.below(3) as u8)],
+        2 => vec![glob(rng), apid(rng)],
+        3 => vec![glob(rng), ctid(rng)],
+        4 => vec![glob(rng), apid(rng), ctid(rng)],
+        5 => vec![Opt::NonVerbose],
+        6 => vec![Opt::SomeIp],
+        7 => vec![Opt::Rewrite],
+        8 => vec![Opt::Can],
+        9 => vec![Opt::Muniic],
+        10 => vec![Opt::Sort],
+        11 => vec![Opt::DebugSort],
+        12 => vec![Opt::DebugLcs],
+        13 => vec![Opt::Hex],
+        14 => vec![Opt::Ascii],
+        15 => vec![Opt::Headers],
+        // the companions without --file_transfer: no plugin is built
+        _ => vec![if rng.chance(1, 2) { apid(rng) } else { Opt::FtPath(rng.below(3) as u8) }, ctid(rng)],
+    }
+}
+const N_ATOMS: u64 = 17;
+/// union of atoms; at most one --file_transfer group and one output style
+fn opts_union(atoms: Vec<Vec<Opt>>) -> Vec<Opt> {
+    let mut v: Vec<Opt> = vec![];
+    for a in atoms {
+        for o in a {
+            let style = |c: u64| (13..=15).contains(&c);
+            if v.iter().any(|x| x.code() == o.code() || (style(x.code()) && style(o.code()))) {
+                continue;
+            }
+            v.push(o);
+        }
+    }
+    v
+}
+
+fn opts_cases(rng: &mut Rng, tier: &str) -> Vec<OptsCase> {
+    let mut v: Vec<OptsCase> = vec![];
+    let t = |l: &[&str]| -> Vec<String> { l.iter().map(|s| s.to_string()).collect() };
+    if tier != "search" {
+        // corpus: hello, FLST, FLDA #1, text, FLDA #2, FLFI, bye -- one complete transfer, extracted to a new directory
+        let e = *b"ECU1";
+        let ids = (pad4("SYS"), pad4("FILE"));
+        let text = |s: &str| {
+            let mut p = vec![];
+            xa_str(&mut p, false, s);
+            xproto(&e, false, Some((0x41, 1, pad4("APP1"), pad4("CTX1"))), p, "verbose_log")
+        };
+        let flda = |k: u32, d: &[u8]| {
+            let mut p = vec![];
+            xa_str(&mut p, false, "FLDA");
+            xa_u32(&mut p, false, 4711);
+            xa_u32(&mut p, false, k);
+            xa_raw(&mut p, false, d);
+            xa_str(&mut p, false, "FLDA");
+            xproto(&e, false, Some((0x41, 5, ids.0, ids.1)), p, "ft_flda")
+        };
+        let mut flst = vec![];
+        xa_str(&mut flst, false, "FLST");
+        xa_u32(&mut flst, false, 4711);
+        xa_str(&mut flst, false, "corpus_c02.bin");
+        xa_u32(&mut flst, false, 8);
+        xa_str(&mut flst, false, "2026");
+        xa_u32(&mut flst, false, 2);
+        xa_u16(&mut flst, false, 4);
+        xa_str(&mut flst, false, "FLST");
+        let mut flfi = vec![];
+        xa_str(&mut flfi, false, "FLFI");
+        xa_u32(&mut flfi, false, 4711);
+        xa_str(&mut flfi, false, "FLFI");
+        let mut ms = vec![text("hello"), xproto(&e, false, Some((0x41, 8, ids.0, ids.1)), flst, "ft_flst"), flda(1, b"data"), text("text"), flda(2, b"DATA"),
+            xproto(&e, false, Some((0x41, 3, ids.0, ids.1)), flfi, "ft_flfi"), text("bye")];
+        for (i, m) in ms.iter_mut().enumerate() {
+            m.rt = lcgen::RHO + 1_000_000 + i as u64 * 1000;
+            m.ts = 10_000 + i as u32 * 10;
+            m.mcnt = i as u8;
+        }
+        v.push(OptsCase { opts: vec![Opt::Ft("*.bin".into()), Opt::FtPath(0)], msgs: ms.clone(), tags: t(&["corpus"]) });
+        v.push(OptsCase { opts: vec![Opt::Ft("*".into()), Opt::FtApid("SYS".into()), Opt::FtCtid("FILE".into())], msgs: ms.clone(), tags: t(&["corpus"]) });
+        v.push(OptsCase { opts: vec![Opt::Ft("nomatch".into()), Opt::FtApid("OTHR".into())], msgs: ms.clone(), tags: t(&["corpus"]) });
+        v.push(OptsCase { opts: vec![], msgs: ms, tags: t(&["corpus"]) });
+    }
+    let mut add = |rng: &mut Rng, atoms: Vec<u64>, tag: &str| {
+        let opts = opts_union(atoms.iter().map(|k| opt_atom(rng, *k)).collect());
+        let msgs = gen_opts_input(rng, &opts);
+        v.push(OptsCase { opts, msgs, tags: vec![tag.to_string()] });
+    };
+    let rounds = if tier == "thorough" { 4 } else { 1 };
+    for _ in 0..rounds {
+        // every option alone, twice (two inputs)
+        for k in 0..N_ATOMS {
+            add(rng, vec![k], "opts_single");
+            add(rng, vec![k], "opts_single");
+        }
+        // pairs: every pair with a --file_transfer atom, and a sample of the others (all of them above quick)
+        for i in 0..N_ATOMS {
+            for j in i + 1..N_ATOMS {
+                let ft_pair = i <= 4 && j > 4;
+                if ft_pair && (tier != "quick" || (i + j + rng.below(2)) % 2 == 0) || (!ft_pair && j > 4 && i > 4 && (tier != "quick" || rng.chance(1, 4))) {
+                    add(rng, vec![i, j], "opts_pair");
+                }
+            }
+        }
+        // larger sets
+        for _ in 0..if tier == "quick" { 8 } else { 30 } {
+            let n = rng.range(3, 6);
+            let atoms: Vec<u64> = (0..n).map(|_| rng.below(N_ATOMS)).collect();
+            add(rng, atoms, "opts_many");
+        }
+        add(rng, vec![4, 1, 5, 6, 7, 8, 9, 11, 12, 14], "opts_all_plugins");
+        add(rng, vec![1, 5, 6, 7, 8, 9, 10, 11, 12, 13], "opts_all_plugins_sorted");
+    }
+    v
+}
+
 #[derive(Clone)]
 struct CMsg {
     rt: u64,
@@ -1704,6 +2677,9 @@ fn main() {
         } else if c["kind"] == "export_over" {
             let chain: Vec<Vec<MSpec>> = c["chain"].as_array().unwrap().iter().map(|s| s.as_array().unwrap().iter().map(MSpec::from_json).collect()).collect();
             record_export_over(&mut sink, OverCase { pre: prior_from_json(&c["pre"]), chain, pre2: prior_from_json(&c["pre2"]), tags: vec!["replay".to_string()] }, None);
+        } else if c["kind"] == "export_opts" {
+            let oc = OptsCase { opts: c["opts"].as_array().unwrap().iter().map(Opt::from_json).collect(), msgs: c["msgs"].as_array().unwrap().iter().map(XMsg::from_json).collect(), tags: vec!["replay".to_string()] };
+            record_export_opts(&mut sink, oc, None, 0);
         } else if c["kind"] == "export_plugin" {
             record_export_plugin(&mut sink, prior_from_json(&c["pre"]), c["specs"].as_array().unwrap().iter().map(MSpec::from_json).collect(), &["replay"]);
         } else if c["kind"] == "export" {
@@ -1810,6 +2786,12 @@ fn main() {
         let (pre, pt) = gen_prior(&mut orng, [3, 5, 8, 0, 3, 6, 1, 2, 5, 7, 3, 9][(k % 12) as usize], &specs, len);
         let t = format!("plugin_pre_{}", pt);
         record_export_plugin(&mut sink, pre, specs, &[&t]);
+    }
+    // family 6: the export under the non-selecting options of the CLI (own random stream)
+    let mut prng = Rng::new(a.seed ^ 0x0b7_10f5);
+    if a.count != Some(0) {
+        let pcases = opts_cases(&mut prng, &a.tier);
+        record_exports_opts(&mut sink, pcases);
     }
     let n = a.count.unwrap_or(if quick { 300 } else if a.tier == "search" { 1200 } else { 5000 });
     for k in 0..n {
